@@ -1,11 +1,13 @@
 #!/bin/bash
-# usage: bin/seedrun.sh <seeded-name> <tier> <ID> [ID...]   — apply seeded patch to /repo, run checks, revert.
+# usage: bin/seedrun.sh <seeded-name> <tier> <ID> [ID...]   — apply a seeded patch to the tree under test
+# (/repo, or the scratch copy named by VERIF_REPO), run checks, revert (also on interruption).
+VERIF="$(cd "$(dirname "$0")/.." && pwd)"; REPO="${VERIF_REPO:-/repo}"
 NAME="$1"; TIER="$2"; shift 2
-cd /repo && git diff --quiet || { echo "/repo dirty"; exit 2; }
-trap "git -C /repo checkout -- ." EXIT INT TERM
-git -C /repo apply /verif/seeded/$NAME/patch.diff || { echo 'patch does not apply'; exit 2; }
+cd "$REPO" && git diff --quiet || { echo "$REPO dirty"; exit 2; }
+trap "git -C $REPO checkout -- ." EXIT INT TERM
+git -C "$REPO" apply "$VERIF/seeded/$NAME/patch.diff" || { echo 'patch does not apply'; exit 2; }
 for id in "$@"; do
   echo "=== $id on seeded/$NAME"
-  /verif/bin/check $id $TIER 2>&1 | grep -E "^VIOLATION|^SUMMARY|^INFRA|^KNOWN" | head -8
+  "$VERIF/bin/check" $id $TIER 2>&1 | grep -E "^VIOLATION|^SUMMARY|^INFRA|^KNOWN" | head -8
 done
-git -C /repo checkout -- . ; git -C /repo status --short | head -3
+git -C "$REPO" checkout -- . ; git -C "$REPO" status --short | head -3
